@@ -43,6 +43,11 @@ pub enum Crash {
     KillAfter { ops: usize, yields: u32 },
     /// stop cleanly (shutdown path flushes)
     CleanStop,
+    /// every fs operation of the flush after phase `phase` fails once with an I/O error
+    /// (ENOSPC / EIO alternating), one run per operation; the history goes on, then the node is killed
+    EnumerateFlushErrors { phase: usize },
+    /// fs operation #op of the node fails with `errno`
+    ErrorAt { op: u64, errno: i32 },
 }
 
 #[derive(Clone, Debug, Serialize, Deserialize, PartialEq)]
@@ -214,9 +219,14 @@ pub fn gen_plan(rng: &mut Rng, focus: &str, thorough: bool) -> DiskPlan {
     let crash = match focus {
         // mostly a flush whose predecessor completed in the other slot; sometimes the very first
         // flush of a fresh directory (one slot has never been written then)
-        "C10" => Crash::EnumerateFlush {
-            phase: if rng.chance(1, 5) { 0 } else { rng.range(1, n_phases as u64 - 1) as usize },
-        },
+        "C10" => {
+            let phase = if rng.chance(1, 5) { 0 } else { rng.range(1, n_phases as u64 - 1) as usize };
+            if rng.chance(1, 8) {
+                Crash::EnumerateFlushErrors { phase }
+            } else {
+                Crash::EnumerateFlush { phase }
+            }
+        }
         "C18" => {
             if rng.chance(1, 5) {
                 Crash::CleanStop
@@ -421,6 +431,9 @@ fn write_legacy(dir: &Path, s: &Store, version: u8, toggle: bool) {
 }
 
 struct Driver {
+    /// the server may have stopped itself (after an injected I/O error): failing calls end the
+    /// history instead of being compared with the model
+    tolerate_api_errors: bool,
     model: Store,
     /// model after every single-key change / registration change (C18 prefixes)
     prefixes: Vec<Store>,
@@ -450,6 +463,9 @@ impl Driver {
             DOp::Set { c, key, value } => {
                 self.ensure_connected(api, *c).await;
                 let r = call!(api.set(key.clone(), value.clone(), cid(*c)));
+                if self.tolerate_api_errors && matches!(&r, Err(e) if format!("{e:?}").contains("SendError")) {
+                    return false;
+                }
                 let m = self.model.set(key, value, &cid(*c).to_string(), false, false);
                 if r.is_ok() != (m == model::Ans::Ack) {
                     out.violate("C01", "disk-driver-answer", "API answer differs from the model", format!("{op:?}: {r:?} vs {m:?}"));
@@ -461,6 +477,9 @@ impl Driver {
             DOp::CSet { c, key, value, version } => {
                 self.ensure_connected(api, *c).await;
                 let r = call!(api.cset(key.clone(), value.clone(), *version, cid(*c)));
+                if self.tolerate_api_errors && matches!(&r, Err(e) if format!("{e:?}").contains("SendError")) {
+                    return false;
+                }
                 let m = self.model.cset(key, value, *version, &cid(*c).to_string(), false);
                 if r.is_ok() != (m == model::Ans::Ack) {
                     out.violate("C02", "disk-driver-answer", "API answer differs from the model", format!("{op:?}: {r:?} vs {m:?}"));
@@ -690,6 +709,7 @@ pub async fn run_once(plan: DiskPlan, crash: Crash) -> (Outcome, Vec<String>) {
     let dir = harness::run_dir().join("data");
     std::fs::create_dir_all(&dir).expect("data dir");
     let mut drv = Driver {
+        tolerate_api_errors: matches!(crash, Crash::ErrorAt { .. }),
         model: Store::default(),
         prefixes: vec![Store::default()],
         connected: vec![false; plan.n_clients],
@@ -775,6 +795,17 @@ pub async fn run_once(plan: DiskPlan, crash: Crash) -> (Outcome, Vec<String>) {
             })
         });
     }
+    if let Crash::ErrorAt { op, errno } = &crash {
+        ctx::with(|s| {
+            s.nodes[node as usize].fs_plan.push(FsFault {
+                at_op: *op,
+                kind: FsFaultKind::Error { errno: *errno },
+            })
+        });
+    }
+    let error_mode = matches!(crash, Crash::ErrorAt { .. });
+    // index of the first flush that did not complete (error mode)
+    let mut first_failed_flush: Option<usize> = None;
     // snapshots[j] = model when flush j (0-based) exported
     let mut snapshots: Vec<Store> = vec![];
     let mut flush_ranges: Vec<(u64, u64)> = vec![];
@@ -794,9 +825,10 @@ pub async fn run_once(plan: DiskPlan, crash: Crash) -> (Outcome, Vec<String>) {
             }
             if !drv.apply(&srv.api, op, &mut out).await {
                 died = !ctx::with(|s| s.node_alive(node));
-                if !died {
+                if !died && !error_mode {
                     out.inconclusive = true;
                 }
+                // (error mode: the server may have shut itself down after the failed flush)
                 break 'phases;
             }
             issued += 1;
@@ -805,18 +837,25 @@ pub async fn run_once(plan: DiskPlan, crash: Crash) -> (Outcome, Vec<String>) {
             let before = count_flushes(node);
             let f0 = ctx::with(|s| s.nodes[node as usize].fs_ops);
             snapshots.push(drv.model.clone());
-            let ok = wait_flush(node, before, interval * 3 + 10).await;
+            // (after a failed flush the periodic task may be gone: do not wait three intervals again)
+            let max_wait = if first_failed_flush.is_some() { interval + 2 } else { interval * 3 + 10 };
+            let ok = wait_flush(node, before, max_wait).await;
             let f1 = ctx::with(|s| s.nodes[node as usize].fs_ops);
             flush_ranges.push((f0 + 1, f1));
             if !ok {
                 died = !ctx::with(|s| s.node_alive(node));
+                if error_mode && !died {
+                    // the flush failed; whether later ones still happen is up to the server
+                    first_failed_flush.get_or_insert(pi);
+                    out.probe("flush_failed_with_io_error");
+                    continue 'phases;
+                }
                 if !died {
                     out.inconclusive = true;
                 }
                 break 'phases;
             }
             out.probe("flushes_completed");
-            let _ = pi;
         }
     }
     if let Crash::KillAfter { .. } = &crash {
@@ -858,6 +897,19 @@ pub async fn run_once(plan: DiskPlan, crash: Crash) -> (Outcome, Vec<String>) {
                 expected.push(("nothing flushed yet".into(), vec![BTreeMap::new()]));
             }
         }
+    } else if error_mode {
+        // kill -9 some time after an I/O error inside a flush: whatever completed before the
+        // failed flush must not be lost; later flushes (the server may go on flushing, or flush
+        // once more while shutting down) are acceptable as well - each as a whole
+        ctx::kill_node(node);
+        let from = first_failed_flush.map(|f| f.saturating_sub(1)).unwrap_or(snapshots.len().saturating_sub(1));
+        if first_failed_flush == Some(0) || snapshots.is_empty() {
+            expected.push(("nothing flushed yet".into(), vec![BTreeMap::new()]));
+        }
+        for (j, s) in snapshots.iter().enumerate().skip(from) {
+            expected.push((format!("flush {j}"), recovered_candidates(s)));
+        }
+        expected.push(("state at the end".into(), recovered_candidates(&drv.model)));
     } else {
         // no crash: kill -9 after the last completed flush (the state on disk is that flush)
         ctx::kill_node(node);
@@ -1021,6 +1073,20 @@ pub async fn run_once(plan: DiskPlan, crash: Crash) -> (Outcome, Vec<String>) {
                 }
             }
             let names: Vec<&String> = expected.iter().map(|e| &e.0).collect();
+            if error_mode {
+                // I/O errors are outside the crash model the property states (process death with
+                // completed operations durable): what they lead to is recorded as an observation
+                // in the evidence, never as a violation
+                out.probe("observation_state_after_io_error_is_not_a_completed_flush");
+                out.sample = Some(json!({
+                    "observation": "after an I/O error inside a flush (not a crash) and a later kill, the recovered state is none of the flushes that completed since",
+                    "fault": format!("{crash:?}"),
+                    "acceptable": names,
+                    "difference_to_first": diff_desc(&got, &first),
+                    "classified_as": sig,
+                }));
+                return (out, fs_log);
+            }
             out.violate(
                 &focus,
                 "recovered-state",
@@ -1029,11 +1095,16 @@ pub async fn run_once(plan: DiskPlan, crash: Crash) -> (Outcome, Vec<String>) {
             );
         }
     }
+    if error_mode {
+        // the chain belongs to the crash model
+        return (out, fs_log);
+    }
     // ---- chain: the second incarnation flushes (and possibly crashes) as well
     if let (Some((cphases, ccrash)), false, true) = (&plan.chain, redb, out.violations.is_empty() && !out.inconclusive) {
         let node2 = srv2.node;
         ctx::with(|s| s.nodes[node2 as usize].record_fs_log = true);
         let mut drv2 = Driver {
+            tolerate_api_errors: false,
             model: Store { map: got.clone() },
             prefixes: vec![],
             connected: vec![false; plan.n_clients],
@@ -1123,7 +1194,7 @@ pub async fn run_once(plan: DiskPlan, crash: Crash) -> (Outcome, Vec<String>) {
         }
     }
     out.nontrivial = match focus.as_str() {
-        "C10" => died && snapshots.len() >= 2,
+        "C10" => (died || first_failed_flush.is_some()) && snapshots.len() >= 2,
         "C18" => drv.prefixes.len() >= 3,
         _ => drv.model.map.values().any(|e| e.cas.is_some()) || drv.model.map.keys().any(|k| model::is_sys(k)),
     };
@@ -1190,6 +1261,51 @@ pub fn run(plan: &DiskPlan, seed: u64, verbose: bool) -> (Outcome, RunStats) {
             agg.sample = Some(json!({"flush_ops": fs_log[(from as usize - 1)..(to as usize).min(fs_log.len())].to_vec()}));
             (agg, stats)
         }
+        Crash::EnumerateFlushErrors { phase } => {
+            let p0 = plan.clone();
+            let log = std::sync::Arc::new(std::sync::Mutex::new((vec![], Value::Null)));
+            let l2 = log.clone();
+            let (mut agg, mut stats) = harness::run_sim(seed, &plan.knobs, false, move || async move {
+                let (o, fs) = run_once(p0, Crash::None).await;
+                *l2.lock().expect("log") = (fs, o.sample.clone().unwrap_or_default());
+                o
+            });
+            let (fs_log, sample) = log.lock().expect("log").clone();
+            let ranges: Vec<(u64, u64)> = serde_json::from_value(sample["flush_ranges"].clone()).unwrap_or_default();
+            let Some((from, to)) = ranges.get(*phase).cloned() else {
+                agg.inconclusive = true;
+                return (agg, stats);
+            };
+            let mut sub = 1u64;
+            let mut any_nt = false;
+            for op in from..=to {
+                let errno = if op % 2 == 0 { 28 } else { 5 }; // ENOSPC / EIO
+                let p = plan.clone();
+                let c = Crash::ErrorAt { op, errno };
+                let (o, st) = harness::run_sim(seed, &plan.knobs, verbose, move || async move { run_once(p, c).await.0 });
+                sub += 1;
+                stats.sim_us += st.sim_us;
+                stats.polls += st.polls;
+                stats.trace ^= st.trace.rotate_left((op % 63) as u32);
+                for (k, v) in st.counters {
+                    *stats.counters.entry(k).or_insert(0) += v;
+                }
+                for (k, v) in &o.probes {
+                    agg.probe_n(k, *v);
+                }
+                any_nt |= o.nontrivial;
+                for mut v in o.violations {
+                    v.detail = format!("[errno {errno} at fs op #{op} ({})] {}", fs_log.get(op as usize - 1).cloned().unwrap_or_default(), v.detail);
+                    if !agg.violations.iter().any(|x| x.signature == v.signature && x.property == v.property) {
+                        agg.violations.push(v);
+                    }
+                }
+            }
+            agg.nontrivial = any_nt;
+            agg.probe_n("error_points_enumerated", to - from + 1);
+            agg.probe_n("sub_runs", sub);
+            (agg, stats)
+        }
         c => {
             let p = plan.clone();
             let c = c.clone();
@@ -1200,6 +1316,16 @@ pub fn run(plan: &DiskPlan, seed: u64, verbose: bool) -> (Outcome, RunStats) {
 
 pub fn shrink(plan: &DiskPlan) -> Vec<DiskPlan> {
     let mut out = vec![];
+    if let Crash::EnumerateFlushErrors { .. } = &plan.crash {
+        for op in 1..=160u64 {
+            for errno in [28, 5] {
+                let mut p = plan.clone();
+                p.crash = Crash::ErrorAt { op, errno };
+                out.push(p);
+            }
+        }
+        return out;
+    }
     if let Crash::EnumerateFlush { .. } = &plan.crash {
         // pin the crash point: try every operation index of a typical flush history
         for op in 1..=120u64 {
